@@ -118,7 +118,12 @@ func (g *xgen) intAtom() *E {
 	if g.pick(8, "collidingname") == 0 {
 		return Var(rapid.SampledFrom([]string{"Aa", "BB", "x1", "wP", "AO", "B0"}).Draw(g.t, "hname"))
 	}
-	switch g.pick(13, "intatom") {
+	switch g.pick(14, "intatom") {
+	case 13:
+		// large integers that lie close together (exactness within 2^53: 2000000000 and 2000000001
+		// are different numbers)
+		base := rapid.SampledFrom([]int64{1000000000, 2000000000, 4294967296, 1 << 40, 1e15, 1<<53 - 4}).Draw(g.t, "bigbase")
+		return Int(base + int64(rapid.IntRange(0, 2).Draw(g.t, "bigoff")))
 	case 0, 1:
 		return Int(int64(rapid.IntRange(0, 99).Draw(g.t, "lit")))
 	case 2:
@@ -215,7 +220,9 @@ func toI(v interface{}) int64 {
 	return 1 << 40
 }
 
-var strLits = []string{"", "a", "ab", "Hello", "x y", "it's", "say \"hi\"", "a,b", "é", "<b>", "T", "F", "zz"}
+var strLits = []string{"", "a", "ab", "Hello", "x y", "it's", "say \"hi\"", "a,b", "é", "<b>", "T", "F", "zz",
+	// blanks inside a literal are content: runs of spaces, a tab, blanks at the edges, words that are keywords elsewhere
+	"a  b", "x   y  z", "p\tq", " lead", "trail ", "  ", "a in b", "x with y", "a and  b", "not  x", "1  +  2"}
 
 func (g *xgen) strAtom() *E {
 	if len(g.extraStrs) > 0 && g.pick(3, "useextra") == 0 {
